@@ -30,6 +30,10 @@ namespace hv
             Line("h").str("e", what).str("f", f).i("t", off(now)).i("a", a).i("b", b).emit();
         }
 
+        // fault plan (C14 with dynamic children alive): `fault <fid> <phase> <occ>` - fid names a library function kind
+        enum { FID_ADDONE = 7001, FID_ACCUM = 7002, FID_ADDKEY = 7003, FID_TICKAFTER = 7004, FID_FAILON = 7005 };
+        void hfault(long long fid, int phase) { ctx().faults.maybe_throw(fid, phase); }
+
         // ---------------------------------------------------------------- function library
         struct NAddOne
         {
@@ -37,17 +41,19 @@ namespace hv
             static void eval(In<"ts", TS<Int>> ts, DateTime now, Out<TS<Int>> out)
             {
                 hlog("ev", "AddOne", now, ts.value());
+                hfault(FID_ADDONE, PH_EVAL);
                 out.set(ts.value() + 1);
             }
         };
         struct NAccum
         {
             static constexpr auto name = "ho_accum";
-            static void start(State<Int> s, DateTime now) { s.set(Int{0}); hlog("start", "Accum", now); }
-            static void stop(State<Int> s, DateTime now) { hlog("stop", "Accum", now, s.get()); }
+            static void start(State<Int> s, DateTime now) { s.set(Int{0}); hlog("start", "Accum", now); hfault(FID_ACCUM, PH_START); }
+            static void stop(State<Int> s, DateTime now) { hlog("stop", "Accum", now, s.get()); hfault(FID_ACCUM, PH_STOP); }
             static void eval(In<"ts", TS<Int>> ts, State<Int> s, DateTime now, Out<TS<Int>> out)
             {
                 hlog("ev", "Accum", now, ts.value(), s.get());
+                hfault(FID_ACCUM, PH_EVAL);
                 s.set(s.get() + ts.value());
                 out.set(s.get());
             }
@@ -352,6 +358,11 @@ namespace hv
             if (k == "window") { start_off = std::stoll(st.tok.at(1)); end_off = std::stoll(st.tok.at(2)); }
             else if (k == "wscript") parse_wscript(st);
             else if (k == "option" && st.has("cleanup_on_error")) cleanup = st.geti("cleanup_on_error") != 0;
+            else if (k == "fault")
+            {
+                int ph = st.tok.at(2) == "start" ? PH_START : st.tok.at(2) == "eval" ? PH_EVAL : PH_STOP;
+                ctx().faults.faults.push_back({std::stoll(st.tok.at(1)), ph, std::stoi(st.tok.at(3))});
+            }
         }
         clock_fault_config(1, 0, 0, false);
         Observer obs;
